@@ -154,6 +154,9 @@ def expected_slot(call, key):
             for j, v in enumerate(nl):
                 if call.G.has_edge(u, v):
                     A[i, j] = 1.0
+        given = getattr(call, 'given_pairs', None) or {}
+        if key in given:
+            return given[key] * A              # the caller's own initial pair probabilities, restricted to the edges
         return (X[:, None] * (Y if key == 'XY' else X)[None, :]) * A
     return None
 
